@@ -31,8 +31,9 @@ import (
 
 // overlapWait bounds how long the scheduler waits for an offer to show up at its next pause.  An
 // offer that does not (a store that serialises uploads) is simply left running: the round is
-// recorded as degraded, nothing is concluded from it.
-const overlapWait = 2 * time.Second
+// recorded as degraded, nothing is concluded from what the scheduler could not see; a session stops
+// scheduling after two such rounds.
+const overlapWait = 5 * time.Second
 
 type gatedReader struct {
 	data    []byte
@@ -134,7 +135,7 @@ func overlapJobs(r *ev.Run, base []*sto.Spec, n *int) []job {
 func (s *session) overlapScript() {
 	seen := map[blob.Ref]bool{}
 	rounds := s.r.Pick(6, 14)
-	for i := 0; i < rounds && !s.dead && s.nviol <= 400; i++ {
+	for i := 0; i < rounds && !s.dead && s.nviol <= 400 && s.degraded < 2; i++ {
 		s.overlapRound(i, seen)
 	}
 }
@@ -425,10 +426,11 @@ func (s *session) overlapRound(i int, seen map[blob.Ref]bool) {
 		return
 	}
 	if degraded {
+		s.degraded++
 		r.Count("overlap_rounds_degraded", 1)
 		r.Note("overlap_blocked", s.spec.Kind+"/"+s.path)
 	}
-	if bothWritten {
+	if bothWritten && !degraded {
 		r.Note("overlap_realised", s.spec.Kind+"/"+s.path+"/both-written,"+firstDone+"-first")
 		r.Note("overlap_realised_states", state+"/"+firstDone+"-first")
 	}
